@@ -590,6 +590,9 @@ pub fn replay<R: Rig>(rig: &R, path: &str) -> i32 {
     for l in &rep.narrative {
         println!("  {}", l);
     }
+    for v in &rep.violations {
+        println!("  violation in this run: {} — {}", v.signature(), truncate(&v.detail, 300));
+    }
     let hit = rep.violations.iter().find(|v| v.signature() == rf.signature);
     match hit {
         Some(v) => {
